@@ -34,6 +34,7 @@ type UnitSpec struct {
 	Loops    map[int]*LoopSpec
 	Flags    map[string]bool // trusted, abstracted, pure, reveal:<M>
 	Reveal   []string
+	AssumeObl []string // obligation names (prefix) turned into listed assumptions, with the reason after ' because '
 	File     string
 	Line     int
 	ModelDef cx       // for model
@@ -63,7 +64,7 @@ var (
 	reHeaderTC      = regexp.MustCompile(`^type-contract\s+(\S+)\s*\(([^)]*)\)\s*(?:\(([^)]*)\))?\s*$`)
 	reHeaderExtern  = regexp.MustCompile(`^extern\s+(\(\*?[\w./]+\)\.\w+|[\w./]+)\s*\(([^)]*)\)\s*(?:\(([^)]*)\))?\s*$`)
 	reHeaderModel   = regexp.MustCompile(`^(?:model|pred)\s+(\w+)\s*\(([^)]*)\)\s*:=\s*(.*)$`)
-	reClause        = regexp.MustCompile(`^(requires|ensures|modifies|ghost|refines|co|captured-inv|invariant|panics-only-if|assume|decreases|loop|trusted|abstracted|reveal|props|havoc)\b(?:\[([^\]]+)\])?\s*(.*)$`)
+	reClause        = regexp.MustCompile(`^(requires|ensures|modifies|ghost|refines|co|captured-inv|assume-obligation|invariant|panics-only-if|assume|decreases|loop|trusted|abstracted|reveal|props|havoc)\b(?:\[([^\]]+)\])?\s*(.*)$`)
 	reLoop          = regexp.MustCompile(`^#(\d+)\s+(invariant|havoc)\b(?:\[([^\]]+)\])?\s*(.*)$`)
 )
 
@@ -242,6 +243,9 @@ func parseContractFile(path string, cs *ContractSet) error {
 			switch kind {
 			case "trusted", "abstracted":
 				cur.Flags[kind] = true
+				continue
+			case "assume-obligation":
+				cur.AssumeObl = append(cur.AssumeObl, strings.TrimSpace(rest))
 				continue
 			case "reveal":
 				cur.Reveal = append(cur.Reveal, splitNames(rest)...)
